@@ -364,9 +364,79 @@ _execute_plain = execute
 
 
 def execute(ctx, case):  # noqa: dispatch on the case kind
+  if case.get('history') == 'failed-create':
+    return _execute_failed_create(ctx, case)
   if case.get('kind') == 'reload-race':
     return execute_race(ctx, case)
   return _execute_plain(ctx, case)
+
+
+def execute_failed_create(ctx, case):
+  case = dict(case, history='failed-create')
+  return _execute_failed_create(ctx, case)
+
+
+def _execute_failed_create(ctx, case):
+  """History: create() fails for the new metrics (full disk), the schema files change and are reloaded, the metrics
+  get datapoints again and the creates now succeed: the files are created from the lists loaded NOW."""
+  b = env.bootstrap()
+  w = prepare(b)
+  env.reset(MAX_UPDATES_PER_SECOND=float('inf'), MAX_CREATES_PER_MINUTE=float('inf'), LOG_CREATES=False, LOG_UPDATES=False,
+            ENABLE_TAGS=False)
+  db = memdb.new_db()
+  b.state.database = db
+  sp = os.path.join(b.conf_dir, 'storage-schemas.conf')
+  ap = os.path.join(b.conf_dir, 'storage-aggregation.conf')
+  old = {'schemas': case['schemas'], 'aggs': case['aggs'], 'agg_file_missing': False}
+  new = {'schemas': case['new_schemas'], 'aggs': case['new_aggs'], 'agg_file_missing': False}
+  cache = b.cache.MetricCache()
+  real_create = db.create
+  try:
+    for gi, gen_ in enumerate((old, new)):
+      with open(sp, 'w') as f:
+        f.write(render_schemas(gen_['schemas']))
+      with open(ap, 'w') as f:
+        f.write(render_aggs(gen_['aggs']))
+      try:
+        w.reloadStorageSchemas()
+        w.reloadAggregationSchemas()
+      except BaseException as e:  # noqa
+        ctx.fail('C19:reload-raised:%s' % type(e).__name__, 'reloading the schema files raised %r' % (e,), case)
+        return
+      if gi == 0:
+        def failing_create(metric, *a, **kw):
+          db._call('create', metric, ['refused'])
+          raise IOError(28, 'No space left on device (injected)')
+        db.create = failing_create
+      else:
+        db.create = real_create
+      for i, name in enumerate(case['names']):
+        cache.store(name, (1500000000 + 10 * gi + i, float(i)))
+      try:
+        w.writeCachedDataPoints()
+      except Exception as e:  # noqa
+        ctx.fail('C19:writer-raised:%s' % type(e).__name__, 'writeCachedDataPoints raised %r' % (e,), case)
+        return
+  finally:
+    db.create = real_create
+  creates = {c[2]: c[3] for c in db.calls if c[1] == 'create' and c[3] != ['refused']}
+  for name in case['names']:
+    got = creates.get(name)
+    if got is None:
+      ctx.fail('C19:not-created', 'metric %r was not created when its create() finally succeeded' % name, case)
+      return
+    en = expected(new, name)
+    g_rets = [tuple(r) for r in (got[0] or [])]
+
+    def same(x, y):
+      return (x is None and y is None) or (x is not None and y is not None and float(x) == float(y))
+    if g_rets != en[0] or not (same(got[1], en[1]) and got[2] == en[2]):
+      ctx.fail('C19:wrong-create-arguments', 'create() of %r had failed, the schema files were replaced and reloaded, the retry '
+               'created it with retentions=%r xff=%r method=%r; the files loaded now say (%r, %r, %r)' % (
+                 name, g_rets, got[1], got[2], en[0], en[1], en[2]), dict(case, names=[name]), 'first-match')
+      return
+  ctx.note(case, nontrivial=any(expected(old, n) != expected(new, n) for n in case['names']),
+           classes=['create failed, files reloaded, create retried'])
 
 
 def execute_race_all_placements(ctx, case):
@@ -380,6 +450,7 @@ def run(ctx):
   run_given(ctx, cases(), execute, ctx.scale(500, 4000), salt=1)
   run_given(ctx, race_cases(), execute, ctx.scale(120, 1500), salt=2)
   run_given(ctx, race_cases(), execute_race_all_placements, ctx.scale(30, 300), salt=3)
+  run_given(ctx, race_cases(), execute_failed_create, ctx.scale(80, 600), salt=4)
   if not ctx.quick:
     # every permutation of a base set of overlapping sections
     base = [
